@@ -642,9 +642,90 @@ func (x *Exec) havocResult(st *State, i *ssa.Call, callee *ssa.Function) Val {
 }
 
 // ---------------------------------------------------------------------------
-// maps (only what nsresolver needs; filled in by the C14 engine)
+// maps: a map value is a reference; per map type two heap arrays
+//   M:<type>.has  : ref -> key -> Bool      M:<type>.val<comp> : ref -> key -> value component
+// keys: strings by identity (contents), integers, pointers and interfaces by reference.
 
-func (x *Exec) mapInit(st *State, t types.Type, ref *Term)          {}
-func (x *Exec) mapLen(st *State, t types.Type, ref *Term) *Term     { return x.Sc.Fresh("maplen", SInt) }
-func (x *Exec) execLookup(fc *frameCtx, st *State, i *ssa.Lookup)   { oos("map/string lookup") }
-func (x *Exec) execMapUpdate(fc *frameCtx, st *State, i *ssa.MapUpdate) { oos("map update") }
+func mapKeyOf(t types.Type) string { return "M:" + typeName(t) }
+
+func (x *Exec) mapKeyTerm(v Val) *Term {
+	switch k := v.(type) {
+	case *Term:
+		return k
+	case IfaceV:
+		return k.Ref
+	}
+	oos("unsupported map key %T", v)
+	return nil
+}
+
+func (x *Exec) mapInit(st *State, t types.Type, ref *Term) {
+	mk := mapKeyOf(t)
+	h := x.heapGet(st, mk+".has", SArr2B)
+	x.heapSet(st, mk+".has", tStore(h, ref, zeroOf(SArrIB)))
+}
+
+func (x *Exec) mapLen(st *State, t types.Type, ref *Term) *Term {
+	l := x.Sc.Fresh("maplen", SInt)
+	x.Sc.Assert(tGe(l, mkInt(0)))
+	return l
+}
+
+func (x *Exec) mapHas(st *State, t types.Type, ref, key *Term) *Term {
+	h := x.heapGet(st, mapKeyOf(t)+".has", SArr2B)
+	// the nil map has no entries
+	x.Sc.Assert(tEq(tSelect(x.heapGet(st, mapKeyOf(t)+".has", SArr2B), mkInt(0)), zeroOf(SArrIB)))
+	return mkApp("select", SBool, tSelect(h, ref), key)
+}
+
+func (x *Exec) mapValue(st *State, t types.Type, ref, key *Term) Val {
+	mt := t.Underlying().(*types.Map)
+	cs := compsOf(mt.Elem())
+	ts := make([]*Term, len(cs))
+	for i, c := range cs {
+		h := x.heapGet(st, mapKeyOf(t)+".val"+c.Suffix, arrSort(arrSort(c.Sort)))
+		ts[i] = mkApp("select", c.Sort, tSelect(h, ref), key)
+	}
+	return unflatten(mt.Elem(), ts)
+}
+
+func (x *Exec) execLookup(fc *frameCtx, st *State, i *ssa.Lookup) {
+	mt, ok := i.X.Type().Underlying().(*types.Map)
+	if !ok {
+		oos("lookup in %s", i.X.Type())
+	}
+	m := x.operand(fc, i.X, nil).(*Term)
+	key := x.mapKeyTerm(x.operand(fc, i.Index, mt.Key()))
+	has := x.Sc.Define(i.Name()+"_ok", x.mapHas(st, i.X.Type(), m, key))
+	val := x.mapValue(st, i.X.Type(), m, key)
+	zero := x.coerce(x.zeroVal(mt.Elem()), mt.Elem())
+	fv, fz := flatten(x.coerce(val, mt.Elem())), flatten(zero)
+	res := make([]*Term, len(fv))
+	for k := range fv {
+		res[k] = x.Sc.Define(i.Name(), tIte(has, fv[k], fz[k]))
+	}
+	v := unflatten(mt.Elem(), res)
+	x.assumeWF(st, v, mt.Elem())
+	if i.CommaOk {
+		fc.env[i] = TupleV{v, has}
+	} else {
+		fc.env[i] = v
+	}
+}
+
+func (x *Exec) execMapUpdate(fc *frameCtx, st *State, i *ssa.MapUpdate) {
+	mt := i.Map.Type().Underlying().(*types.Map)
+	m := x.operand(fc, i.Map, nil).(*Term)
+	x.safety(st, "nil", i.Pos(), i, tNe(m, mkInt(0))) // assignment to an entry of a nil map panics
+	key := x.mapKeyTerm(x.operand(fc, i.Key, mt.Key()))
+	val := x.coerce(x.operand(fc, i.Value, mt.Elem()), mt.Elem())
+	mk := mapKeyOf(i.Map.Type())
+	h := x.heapGet(st, mk+".has", SArr2B)
+	x.heapSet(st, mk+".has", tStore(h, m, tStore(tSelect(h, m), key, tTrue)))
+	fv := flatten(val)
+	for k, c := range compsOf(mt.Elem()) {
+		hk := mk + ".val" + c.Suffix
+		hv := x.heapGet(st, hk, arrSort(arrSort(c.Sort)))
+		x.heapSet(st, hk, tStore(hv, m, tStore(tSelect(hv, m), key, fv[k])))
+	}
+}
